@@ -98,3 +98,10 @@ pub proof fn axiom_u8_from_bool()
         forall|b: bool| #[trigger] <u8 as vstd::std_specs::convert::FromSpec<bool>>::from_spec(b) == (if b { 1u8 } else { 0u8 }),
 {
 }
+
+/// S-12  Option<&T>::copied
+pub assume_specification<'a, T>[ std::option::Option::<&T>::copied ](o: std::option::Option<&'a T>) -> (r: std::option::Option<T>)
+    where T: std::marker::Copy,
+    ensures
+        r == (match o { Some(x) => Some(*x), None => None::<T> }),
+;
